@@ -207,6 +207,7 @@ def _dump(node, cut):
             if cut and x['k'] in ('Associate', 'TypeDef'):
                 for sl, _ in gen.SLOTS.get(x['k'], ()):
                     x['f'][sl] = 'CUT'
+                x['_src'] = 'CUT'       # the in-place update includes the node's own source (status)
             for v in x['f'].values():
                 rec(v)
         elif isinstance(x, list):
@@ -548,16 +549,23 @@ def check_case(case, ctx):
             if '_o' not in e:
                 continue
             o = nodes[e['_o']]
-            if not inplace and getattr(o.source, 'status', None) is not None and o.source.status.name != 'VALID':
+            updated_by_design = scoped_inplace and e['k'] in ('Associate', 'TypeDef')
+            if not inplace and not updated_by_design and getattr(o.source, 'status', None) is not None \
+                    and o.source.status.name != 'VALID':
                 ctx.fail(f'C14:{mode}:source-of-original-invalidated', case, f'original node #{e["_o"]} source is {o.source.status}')
                 break
             dirty = any(_has_sourceless_handle(x) for sl, kind in rx.slots_of(e)
                         for x in ((e['f'].get(sl) or []) if kind == 'F' else [y for bb in e['f'].get(sl) or [] for y in bb]))
             if opts.get('invalidate_source'):
                 if dirty and a['_src'] == 'VALID':
-                    scoped_sfx = ':in-place-updated-ScopedNode' if (e['k'] in ('Associate', 'TypeDef') and scoped_inplace) else ''
-                    ctx.fail(f'C14:{mode}:source-not-invalidated-above-replacement{scoped_sfx}', case,
-                             f'{e["k"]} #{e["_o"]} contains a source-less replacement but keeps a VALID source')
+                    if e['k'] in ('Associate', 'TypeDef') and scoped_inplace:
+                        # one root cause in Transformer.visit_ScopedNode and NestedTransformer.visit_ScopedNode: the final
+                        # in-place `_update(*rebuilt)` of a scoped node bypasses the invalidation done in `_rebuild`
+                        # (verified by hand for both classes) -> one mode-independent signature
+                        sig = 'C14:source-not-invalidated-above-replacement:in-place-updated-ScopedNode'
+                    else:
+                        sig = f'C14:{mode}:source-not-invalidated-above-replacement'
+                    ctx.fail(sig, case, f'{e["k"]} #{e["_o"]} contains a source-less replacement but keeps a VALID source')
                     break
             elif a['_src'] != 'VALID':
                 ctx.fail(f'C14:{mode}:source-dropped-with-invalidate_source=False', case,
